@@ -1671,7 +1671,56 @@ Proof.
            (goit_path_top (str "a" ++ [c_nl] ++ str "b"))).
 Qed.
 
+(* F55: an empty line of .goitignore is not an entry.  With .goitignore =
+   "*.log\n\n" the untracked files d/f and src/deep/h are listed by `status`
+   and staged by `add .` / `add d`; d/g.log is excluded by the entry that IS
+   there.  Before the repair the empty line was the empty pattern, which matched
+   every directory target "d/": this very history listed only .goitignore and
+   staged nothing beneath d or src (last clause: under the pattern list the
+   pre-repair loader built, the directory d is ignored and d/f is not visible in
+   this world). *)
+Definition c17_blank_setup : list action :=
+  [ ACmd c17_env CInit;
+    AEdit (UWrite (str ".goitignore") (str "*.log" ++ [c_nl] ++ [c_nl]));
+    AEdit (UWrite (str "d/f") (str "F"));
+    AEdit (UWrite (str "d/g.log") (str "G"));
+    AEdit (UWrite (str "src/deep/h") (str "H")) ].
+Definition c17_blank_w : world := Eval vm_compute in run c17_blank_setup w_empty.
+Lemma c17_blank_w_run : run c17_blank_setup w_empty = c17_blank_w.
+Proof. vm_compute. reflexivity. Qed.
+
+Example c17_blank_line_hides_nothing :
+  Forall action_ok c17_blank_setup /\
+  snd (fst (step (ACmd c17_env CStatus) c17_blank_w))
+    = OOk [str "untracked .goitignore"; str "untracked d/f"; str "untracked src/deep/h"] /\
+  paths (idx_of (step_w (ACmd c17_env (CAdd [str "."])) c17_blank_w))
+    = [str ".goitignore"; str "d/f"; str "src/deep/h"] /\
+  paths (idx_of (step_w (ACmd c17_env (CAdd [str "d"])) c17_blank_w)) = [str "d/f"] /\
+  (forall c, ctx_of c17_blank_w = Some c ->
+     x_pats c = [ign_builtin; RCat (RStar RAny) (RCat (RChar x2e) (lit_then (str "log") REps))] /\
+     ign_match (x_pats c) (str "d/") = false /\
+     ignored c17_blank_w (x_pats c) (str "d") = false /\
+     visible c17_blank_w (x_pats c) (str "d/f") = true /\
+     visible c17_blank_w (x_pats c) (str "d/g.log") = false) /\
+  ctx_of c17_blank_w <> None /\
+  (let old := [ign_builtin; RCat (RStar RAny) (RCat (RChar x2e) (lit_then (str "log") REps)); REps] in
+   ignored c17_blank_w old (str "d") = true /\ visible c17_blank_w old (str "d/f") = false).
+Proof.
+  split.
+  { unfold c17_blank_setup.
+    repeat (apply Forall_cons || apply Forall_nil); cbn [action_ok edit_ok]; try exact Logic.I.
+    all: unfold valid_path; simpl; tf_valid. }
+  split; [vm_compute; reflexivity|]. split; [vm_compute; reflexivity|]. split; [vm_compute; reflexivity|].
+  split.
+  { intros c Hc.
+    assert (Hp : x_pats c = [ign_builtin; RCat (RStar RAny) (RCat (RChar x2e) (lit_then (str "log") REps))]).
+    { pose proof (ctx_of_pats _ _ Hc) as Hl. vm_compute in Hl. injection Hl as Hl. symmetry. exact Hl. }
+    rewrite Hp. split; [reflexivity|]. repeat split; vm_compute; reflexivity. }
+  split; [vm_compute; discriminate | split; vm_compute; reflexivity].
+Qed.
+
 (* ================================================================== *)
+Print Assumptions c17_blank_line_hides_nothing.
 Print Assumptions add_never_stages_excluded_gen.
 Print Assumptions add_never_stages_excluded.
 Print Assumptions add_never_stages_goit_dir.
